@@ -31,6 +31,7 @@ CFGS = [
     dict(name='rule-else', H=H, R=1800, dur=2 * H, pauses=[H], pickle=True, controls=[dict(kind='rule', target='P2', rel='lt', then=0, **{'else': 1})]),
     dict(name='leak-window', H=H, dur=3 * H, pauses=[H, 2 * H], pickle=True, controls=[dict(kind='leak', target='J2')]),
     dict(name='level-control', H=H, dur=3 * H, pauses=[2 * H], pickle=False, controls=[dict(kind='level', target='P2', rel='gt', value=0)]),
+    dict(name='tank-min-isolates', H=H, dur=4 * H, pauses=[2 * H], pickle=False, dead_end=True, tank_q=-0.02, controls=[]),
     dict(name='setting+clock', H=H, dur=2 * H, pauses=[H], pickle=True, clock=True, controls=[dict(kind='setting', target='VT', value='sym'), dict(kind='status', target='P2', value=0, clock=True)]),
 ]
 
@@ -50,10 +51,12 @@ def run_paused(plane, wn, cfg, do_pickle):
 
 def check_cfg(rep, cfg):
     tag = cfg['name']
-    plane = ctrlplane.Plane(runkit.policy())
+    tq = cfg.get('tank_q', runkit.TANK_Q)
+    plane = ctrlplane.Plane(runkit.policy(tq))
     with ctrlplane.installed(plane):
         def harness(c):
             V = SymVars(c)
+            c.assume_fractional_floors = True
             wa = runkit.build(V, cfg)
             wb = runkit.build(V, cfg)
             a = runkit.snapshot(plane.run(wa))
@@ -115,9 +118,22 @@ def replay_pause(i):
         with warnings.catch_warnings():
             warnings.simplefilter('ignore')
             return runkit.frames_snapshot(wntr.sim.WNTRSimulator(w).run_sim())
+    def build():
+        wn = runkit.build(V, cfg)
+        if cfg.get('dead_end'):
+            # realise the stub's tank flow with real hydraulics: J3 hangs on the tank alone and draws 0.02 from it
+            for ln in ('VT', 'PP'):
+                wn.get_link(ln).initial_status = 'CLOSED'
+                wn.get_link(ln)._user_status = wntr.network.LinkStatus.Closed
+            j3 = wn.get_node('J3')
+            j3.demand_timeseries_list.clear()
+            j3.add_demand(0.02, None)
+            wn.get_node('J4').demand_timeseries_list.clear()
+            wn.get_node('J4').add_demand(0.001, None)
+        return wn
     try:
-        a = run(runkit.build(V, cfg))
-        wb = runkit.build(V, cfg)
+        a = run(build())
+        wb = build()
         parts = []
         for T1 in cfg['pauses'] + [cfg['dur']]:
             wb.options.time.duration = T1
